@@ -290,7 +290,7 @@ var maps = ev.NewCheck("C11", "tempo-maps",
 	"rapid: resolution 1..32767, one tempo track with 0..40 raw FF 51 03 events (microseconds per quarter over 1..2^24-1, biased to extremes), deltas biased to 0 (repeated ticks), first event at tick 0 or later, optional non-tempo metas in between, optional 1..3 further tracks with channel events, placed before and/or after the tempo track; file written and read back; queries = every tempo tick and +-1, random ticks up to min(2^32-1, 8 days of map time); oracle = exact rational integral of the tempo map (120 BPM before the first event, last event at a tick wins): |TimeAt(t) - exact| <= k+1 us (k = distinct-tick segments below t), TimeAt non-decreasing, TracksReader.Do gives AbsTicks per track and AbsMicroSeconds == TimeAt(AbsTicks); non-trivial = a query tick beyond the second tempo segment; distinct by case hash",
 	genCase, run)
 
-func TestPropTempoMaps(t *testing.T) { maps.Rapid(t, 600, 60000) }
+func TestPropTempoMaps(t *testing.T) { maps.Rapid(t, 3000, 60000) }
 
 // ---- duration <-> ticks inverse ---------------------------------------------------------
 
